@@ -45,6 +45,12 @@
               (C17_catmull_span_hausdorff_ieee, C17_catmull_hausdorff_ieee; the
               last span uses the COMPUTED phantom point fl(2 v3 - v2), which is
               within 3 * 2^(E-24) of 2 v3 - v2: C17_catmull_phantom_point);
+              osu! mode: the simplification loop as computed (binary32
+              distance widened to binary64, compared with 6.0) keeps the
+              kept and the full computed polyline within 6 + 2^-19 of each
+              other, both ways, for vertices within 2^20
+              (C17_catmull_simplification_hausdorff_ieee; control points
+              within 2^16: C17_catmull_then_simplify_ieee);
      Bezier   for n * 2^E <= 2^22 (so the loop returns at depth <= 19, T01g):
               the two-sided Hausdorff bound Kbez (n-1) + E_bez E (n-1) 19
               between the polyline emitted by the binary32 subdivision loop
@@ -82,9 +88,6 @@
        hypotheses.  These are MEASURED by the oracle of harness/src/c17.rs
        against curves evaluated in f64, with the exact bounds above plus an
        explicit rounding slack;
-     - Catmull, osu! mode: the 6 px simplification is proved over the reals
-       (C17_catmull_simplification_hausdorff); its binary64 distance
-       comparisons are not related to the real ones;
      - that the second control point of a perfect curve lies on the arc that
        is run through (the direction choice), and the angle of the last
        vertex: T17d has the end points under libm hypotheses only;
@@ -95,7 +98,7 @@ From RM Require Import Model.ControlPoints Model.Curve Gen.Generated Proofs.Bezi
   Proofs.HausdorffPlane Proofs.HausdorffArc Proofs.HausdorffBezierCore Proofs.HausdorffBezier
   Proofs.HausdorffCatmull Proofs.HausdorffCatmullDeriv Proofs.HausdorffSimplify
   Proofs.BezierIEEE Proofs.BezierIEEETight Proofs.VertexIEEEBase Proofs.VertexIEEECatmull Proofs.VertexIEEECatmullPath
-  Proofs.VertexIEEEBezierScalar Proofs.VertexIEEEBezier Proofs.VertexIEEEBezierPath Proofs.VertexIEEEBezierTight Proofs.VertexIEEEArc Proofs.VertexIEEEArcPath.
+  Proofs.VertexIEEEBezierScalar Proofs.VertexIEEEBezier Proofs.VertexIEEEBezierPath Proofs.VertexIEEEBezierTight Proofs.VertexIEEEArc Proofs.VertexIEEEArcPath Proofs.VertexIEEESimplify.
 From Flocq Require Import Core BinarySingleNaN.
 From Coq Require Import Reals.
 Open Scope Z_scope.
@@ -710,6 +713,38 @@ Theorem C17_catmull_hausdorff_ieee_points :
             span_follows_ieee (3 * L' / 10000) (3 / 2 * E_cat E) v1 v2 v3 v4 (map posR (span_path32 sp))) spans.
 Proof. exact catmull_hausdorff_ieee_points. Qed.
 Print Assumptions C17_catmull_hausdorff_ieee_points.
+
+(* osu! mode: the simplification loop AS COMPUTED.  The decisions are the
+   model's (binary32 distance, widened, compared with 6.0); a vertex is only
+   dropped when that test is false, and then its real distance from the start
+   of the group is at most 6 + 2^-19 *)
+Theorem C17_catmull_simplification_test_ieee :
+  forall s c : Pos, point_ok 20 s -> point_ok 20 c ->
+  D.gt (f64_of_f32 (pdist s c)) catmull_simplify_dist = false ->
+  (dist2 (posR s) (posR c) <= 6 + bpow radix2 (-19))%R.
+Proof. exact far_false_dist. Qed.
+Print Assumptions C17_catmull_simplification_test_ieee.
+
+Theorem C17_catmull_simplification_hausdorff_ieee :
+  forall (cat : list Pos) (opt : F64), Forall (point_ok 20) cat ->
+  HD (6 + bpow radix2 (-19)) (map posR cat) (map posR (fst (catmull_simplify cat opt))).
+Proof. exact catmull_simplify_hausdorff_ieee. Qed.
+Print Assumptions C17_catmull_simplification_hausdorff_ieee.
+
+(* the computed Catmull vertices stay within 14 * 2^E <= 2^(E+4) ... *)
+Theorem C17_catmull_vertices_bounded_ieee :
+  forall E points cat, 0 <= E <= 100 -> Forall (point_ok E) points -> approximate_catmull points = Done cat ->
+  Forall (point_ok (E + 4)) cat.
+Proof. exact approximate_catmull_ok. Qed.
+Print Assumptions C17_catmull_vertices_bounded_ieee.
+
+(* ... so the whole Catmull branch of calculate_subpath in osu! mode is
+   covered for control points within 2^16 *)
+Theorem C17_catmull_then_simplify_ieee :
+  forall E points cat opt, 0 <= E <= 16 -> Forall (point_ok E) points -> approximate_catmull points = Done cat ->
+  HD (6 + bpow radix2 (-19)) (map posR cat) (map posR (fst (catmull_simplify cat opt))).
+Proof. exact catmull_then_simplify_ieee. Qed.
+Print Assumptions C17_catmull_then_simplify_ieee.
 
 (* the hypotheses are satisfiable: (0,0) (100,50) (200,0), E = 8 *)
 Example C17_catmull_ieee_nonvacuous :
